@@ -246,6 +246,17 @@ def _self_field(st, fld):
     return v
 
 
+def _loop_frame(r):
+    """the frame that owns the loop a backedge result closes (the fold may live in a helper inlined into the caller)"""
+    frames = r.state.frames
+    vals = list(frames.values()) if isinstance(frames, dict) else list(frames)
+    if isinstance(r.detail, tuple) and len(r.detail) >= 2:
+        for f in vals:
+            if f.body.defp == r.detail[1] and f.site == r.detail[0]:
+                return f
+    return frames.get(0) if isinstance(frames, dict) else frames[0]
+
+
 def check_refresh_aggregates(ctx, ra, R):
     """fold rule: accumulators start at 0, are updated only by saturating_add(acc, accessor(elem)) in a loop over
     the orders, and stored to the like-roled field after the loop; order_count := orders.len()."""
@@ -304,7 +315,7 @@ def check_refresh_aggregates(ctx, ra, R):
             if pre.get(l) != Int(0):
                 return False, "accumulator for %s does not start at 0 (starts at %s)" % (fld, short(pre.get(l)))
     for r in backs:
-        fr = r.state.frames[0]
+        fr = _loop_frame(r)
         for fld, role in want.items():
             hv = acc_local[fld]
             newv = fr.locals.get(hv[2]) if isinstance(hv[2], int) else r.state.heap.get((hv[2][1], hv[2][2]))
@@ -547,7 +558,7 @@ def local_fold_ok(L, r, va, ha, ca, q, allres):
     backs = [rb for rb in allres if rb.kind == "backedge" and isinstance(rb.detail, tuple) and Walker._site_str(rb.detail) == K]
     seen = set()
     for rb in backs:
-        fr = rb.state.frames.get(0) if isinstance(rb.state.frames, dict) else rb.state.frames[0]
+        fr = _loop_frame(rb)
         vs = [(a[1], a[2]) for a, p in rb.facts.order if a[0] == "variant" and a[2] in R.variants and mentions(a[1], itv)]
         if len(vs) != 1:
             return False, "an iteration of the constructor's loop does not decide the element's order type"
